@@ -332,7 +332,8 @@ impl Property for C08 {
                 sc.family = "corpus".into();
             }
             6 | 7 | 8 => {
-                let base = match rng.below(11) {
+                let base = match rng.below(13) {
+                    11 | 12 => gen::lib_program(&mut rng),
                     9 | 10 => gen::repeated_construct(&mut rng),
                     4..=8 => gen::macro_program(&mut rng),
                     0 => gen::corpus_sv(&mut rng, 800).to_string(),
